@@ -110,9 +110,8 @@ def c_totals(c):
     c.pre("leaf_is_an_existing_component", And(P.alloc0(leaf.ref), leaf.ref != NULL, archmodel.is_a(P, leaf.ref, "Component")))
     c.pre("unique_node_name", ForAll([Const("uo", Ref)], Implies(And(P.alloc0(Const("uo", Ref)), Select(ex.heap_arrays("name", heap0)[0], Const("uo", Ref)) == Select(ex.heap_arrays("name", heap0)[0], leaf.ref)), Const("uo", Ref) == leaf.ref)))
     marks0 = Select(ex.heap_arrays("_costs_calculated", heap0)[0], leaf.ref)
-    # first calculation on this spec: nothing is marked as calculated yet (the re-calculation case is C27)
-    me = Const("me", Elem)
-    c.pre("nothing_calculated_yet", ForAll([me], Not(Select(marks0, me))))
+    # (a component may already be costed by an earlier call: its per-instance values are then kept --
+    #  that is C27 -- and the totals are still recomputed from them, see the postconditions)
     own = FAN(leaf.ref)
     instances = PF(parents.arr, parents.n) * own
     # known finding F4: the component's own fan-out is not counted
@@ -123,9 +122,8 @@ def c_totals(c):
 
     def total(kind, per, tot):
         def post(res):
-            fresh = And(flags[kind], Not(Select(marks0, P.elem_of_str(kind))))
             p_, t_ = ex.read_field(leaf, per), ex.read_field(leaf, tot)
-            return Implies(fresh, And(Not(p_.isnone), Not(t_.isnone), t_.val == p_.val * instances))
+            return Implies(flags[kind], And(Not(p_.isnone), Not(t_.isnone), t_.val == p_.val * instances))
         return post
 
     c.post("total_area_counts_every_instance", total("area", "area", "total_area"))
